@@ -352,7 +352,8 @@ def render_real(src, env, comments_on, data_attributes=False):
         log.append(i)
         return recval(i)
     try:
-        out = PageTemplate(src, enable_comment_interpolation=comments_on, **cfg)(f=f, **env)
+        from vlib import routes, state
+        out = routes.make(PageTemplate, src, 8, state.CTX, enable_comment_interpolation=comments_on, **cfg)(f=f, **env)
     except Exception as e:
         try:
             msg = str(e).split('\n')[0][:160]
